@@ -77,6 +77,14 @@ PROPS["C18"] = {
     "assumptions": [],
 }
 
+PROPS["C11"] = {
+    "module": "Matreex.Props.C11", "harness": "C11",
+    "technique": "Lean 4 theorems over abstract mul/add/default (no algebraic laws): size decision (T2), set_order via the C05 transpose proof, unchecked row/column slices in range, unwrap_unchecked never on None, both loop nests, lift to the logical view + correspondence over symbolic token terms",
+    "trusted": ["get_unchecked(range) as UB outside the vector, Option::unwrap_unchecked as UB on None, zip/map/reduce as list functions (Model/Mul.lean)",
+                "mul/add/Default/Clone are effect-free functions in the theorems (fault schedules: C02); borrowed operator forms clone the operand first (hand-modelled in the driver)"],
+    "assumptions": ["Coh and size <= usize::MAX for both operands (C01)"],
+}
+
 LEVEL_TEXT = ("Machine-checked Lean 4 theorems, for all inputs the property quantifies over, about a model whose integer core is "
               "regenerated from /repo/src on every run and whose remaining structure is tied to the implementation by a differential "
               "correspondence run (same operation lines on crate and model) plus the property's own oracle on the implementation.")
